@@ -24,14 +24,16 @@ import (
 //	slow     sends the head announcing 1000 bytes and 10 bytes, stalls for Stall, then closes
 //	big      sends a 5 MiB body (for aborting downloads)
 type FaultBackend struct {
-	addr  string
-	mu    sync.Mutex
-	l     net.Listener
-	mode  string
-	Stall time.Duration
-	conns int
-	reqs  int // client requests (not probes) whose head was received
-	done  bool
+	// HealthyBody is the body of the healthy answer ("ok" if empty); set before traffic starts
+	HealthyBody string
+	addr        string
+	mu          sync.Mutex
+	l           net.Listener
+	mode        string
+	Stall       time.Duration
+	conns       int
+	reqs        int // client requests (not probes) whose head was received
+	done        bool
 	// Lost is set when the port could not be re-acquired after a "refuse" phase (tool condition)
 	Lost bool
 }
@@ -176,7 +178,11 @@ func (fb *FaultBackend) serve(c net.Conn, mode string, stall time.Duration) {
 		}
 		switch mode {
 		case "healthy":
-			fmt.Fprintf(c, "HTTP/1.1 200 OK\r\nContent-Type: text/plain\r\nContent-Length: 2\r\n\r\nok")
+			body := fb.HealthyBody
+			if body == "" {
+				body = "ok"
+			}
+			fmt.Fprintf(c, "HTTP/1.1 200 OK\r\nContent-Type: text/plain\r\nContent-Length: %d\r\n\r\n%s", len(body), body)
 			continue
 		case "500":
 			fmt.Fprintf(c, "HTTP/1.1 500 Internal Server Error\r\nContent-Type: text/plain\r\nContent-Length: 4\r\n\r\nfail")
